@@ -25,15 +25,17 @@ PROPERTY = "C44"
 LEVEL = "fault_enumeration"
 TECHNIQUE = "exhaustive enumeration of small simulated bus populations (device model with transport layer, programming mode, refusals, timeouts) against the real management procedures on a virtual-time loop; bus-log oracle"
 RULE = (
-    "address write: every multiset of 0..3 (thorough: 0..4) devices over address {target,a,b} x programming mode x connection behaviour {answers,refuses,silent} (1330 / 7315 populations) x reply latency {20 ms, same loop iteration as the L_Data.con}; address read: 0..3 devices over {target,a} x programming mode x {answers,silent} x raise_if_multiple; "
-    "serial read/write: every multiset of 0..3 devices over serial {asked,other} x address {target,a} x {honest, answers any serial read} (165 populations x 2 procedures); "
+    "every device has its own reply latency {c: handled in the loop iteration of the L_Data.con, i: a few iterations later, m: 20 ms later} (one value for devices that never send anything in the procedure); "
+    "address write: every multiset of 0..3 (thorough: 0..4) devices over address {target,a,b} x programming mode x connection behaviour {answers,refuses,silent} x latency (40 device codes, 12341 / 135751 populations); "
+    "address read: 0..3 devices over {target,a} x programming mode x {answers,silent} x latency x raise_if_multiple (969 x 2); "
+    "serial read/write: every multiset of 0..3 devices over serial {asked,other} x address {target,a} x {honest, answers any serial read} x latency (1771 populations x 2 procedures); "
     "authorize2: all 256 (free level, client-key level) pairs + unknown key + refusing/silent device; "
     "non-trivial = at least one device reacts to the procedure (a device in programming mode or at the target address / a device answering the serial read / a device answering the authorization); distinct by construction"
 )
 LEVEL_TEXT = "All bus populations within the stated bounds are executed against the real procedures in virtual time; what was broadcast, who was restarted, what the procedures returned and the final device addresses are judged from the simulated bus log."
-LEVEL_NOTE = "The bus is the model in vk/simbus.py (KNX transport layer automaton per device, replies 20 ms after the L_Data.con or in the same loop iteration, no frame loss); larger populations, lost frames and slow devices are outside the enumeration."
+LEVEL_NOTE = "The bus is the model in vk/simbus.py (KNX transport layer automaton per device, per-device reply latency: in the L_Data.con's loop iteration / a few iterations later / 20 ms, no frame loss); larger populations, lost frames and slow devices are outside the enumeration."
 ASSUMPTIONS = [
-    "simulated devices follow 03_03_04 (T_Connect/T_Disconnect/numbered data + T_ACK) and answer the broadcast services of 03_05_02; replies arrive 20 ms (+2 ms per further frame) after the request was confirmed, or (address write, second schedule) in the very loop iteration that processes the L_Data.con; nothing is lost",
+    "simulated devices follow 03_03_04 (T_Connect/T_Disconnect/numbered data + T_ACK) and answer the broadcast services of 03_05_02; each device replies, per its own latency attribute, in the very loop iteration that processes the L_Data.con of the request, a few iterations later at the same virtual instant, or 20 ms (+2 ms per further frame) later; mixed populations are enumerated; nothing is lost",
     "a 'silent' device ignores point-to-point frames but takes part in broadcasts; NM_IndividualAddress_Check cannot see it, so it does not count as 'already uses the address' nor in the collision clause",
     "interface stub confirms every frame; time.time() read by xknx.management.management is the virtual clock",
     "exceptions out of the receive path while the procedures run are C43's subject (counted in notes, not judged here)",
@@ -52,14 +54,25 @@ def _serial(i: int) -> bytes:
     return bytes([0, 0xFA, 0, 0, 0, i + 1])
 
 
-LATENCIES = {"20ms": (0.02, 0.002), "same-iteration": (0.0, 0.0)}
-_LAT = ["20ms"]  # current reply latency (set per case by the enumeration / replay)
+LATENCIES = {"20ms": (0.02, 0.002), "same-iteration": (0.0, 0.0)}  # bus-wide default (devices without a latency of their own; saved inputs)
+_LAT = ["20ms"]  # bus-wide default of the current case
+_EARLY = [False]  # the current case has a device whose replies are handled in the loop iteration of the L_Data.con
+DEV_LAT = {"c": "con", "i": "iter", "m": "20ms"}  # 4th character of a device code: per-device reply latency
+
+
+def _set_case(pop, default: str = "20ms") -> None:
+    _LAT[0] = default
+    _EARLY[0] = default == "same-iteration" or any(len(c) > 3 and c[3] == "c" for c in pop)
 
 
 def _b(bucket: str) -> str:
-    """Buckets of the zero-latency schedule carry a suffix: replies processed in the loop iteration of the L_Data.con
-    expose a different root cause (frames arriving before the awaiting task resumed) than the 20 ms schedule."""
-    return bucket if _LAT[0] == "20ms" else bucket + ":replies-in-confirmation-iteration"
+    """Buckets of cases in which some device replies in the loop iteration that handles the L_Data.con carry a suffix:
+    frames arriving before the awaiting task resumed expose other root causes than the schedules without them."""
+    return bucket + ":replies-in-confirmation-iteration" if _EARLY[0] else bucket
+
+
+def _lat(code: str):
+    return DEV_LAT[code[3]] if len(code) > 3 else None
 
 
 def run_scenario(devices_spec, proc):
@@ -125,17 +138,19 @@ def _undeclared(ctx, tag, inp, obs) -> bool:
 
 
 def pop_devices(pop):
-    """pop: list of 'tPA' style codes: address key, programming mode (P/-), connection (A/R/S)."""
+    """pop: list of 'tPA' / 'tPAc' style codes: address key, programming mode (P/-), connection (A/R/S),
+    optional reply latency (c: in the loop iteration of the L_Data.con, i: a few iterations later, m: 20 ms later)."""
     out = []
     for i, code in enumerate(pop):
-        out.append({"address": ADDRS[code[0]], "prog": code[1] == "P", "conn": CONNS[code[2]], "serial": _serial(i), "name": f"d{i}:{code}"})
+        out.append({"address": ADDRS[code[0]], "prog": code[1] == "P", "conn": CONNS[code[2]], "serial": _serial(i), "name": f"d{i}:{code}", "latency": _lat(code)})
     return out
 
 
-def check_write(ctx, pop) -> str:
+def check_write(ctx, pop, default_latency: str = "20ms") -> str:
     from xknx.management.procedures import network
     from xknx.telegram import apci
 
+    _set_case(pop, default_latency)
     inp = {"proc": "address_write", "pop": list(pop), "target": TARGET, "latency": _LAT[0]}
 
     async def proc(xknx, bus):
@@ -199,6 +214,7 @@ def check_write(ctx, pop) -> str:
 def check_read(ctx, pop, raise_if_multiple: bool) -> None:
     from xknx.management.procedures import network
 
+    _set_case(pop)
     inp = {"proc": "address_read", "pop": list(pop), "raise_if_multiple": raise_if_multiple}
 
     async def proc(xknx, bus):
@@ -225,10 +241,10 @@ def check_read(ctx, pop, raise_if_multiple: bool) -> None:
 
 
 def ser_devices(pop):
-    """codes: serial (s=asked / o=other), address key, fault (-/*: answers any serial read)."""
+    """codes: serial (s=asked / o=other), address key, fault (-/*: answers any serial read), optional reply latency (c/i/m)."""
     out = []
     for i, code in enumerate(pop):
-        out.append({"address": ADDRS[code[1]], "serial": SER_ASKED if code[0] == "s" else SER_OTHER, "serial_fault": "answers-any" if code[2] == "*" else None, "name": f"d{i}:{code}"})
+        out.append({"address": ADDRS[code[1]], "serial": SER_ASKED if code[0] == "s" else SER_OTHER, "serial_fault": "answers-any" if code[2] == "*" else None, "name": f"d{i}:{code}", "latency": _lat(code)})
     return out
 
 
@@ -236,6 +252,7 @@ def check_serial(ctx, pop, write: bool) -> None:
     from xknx.management.procedures import network
     from xknx.telegram import apci
 
+    _set_case(pop)
     inp = {"proc": "serial_write" if write else "serial_read", "pop": list(pop)}
 
     async def proc(xknx, bus):
@@ -281,6 +298,7 @@ def check_authorize(ctx, free: int, client: int | None, conn_behaviour: str = "a
     if client is not None:
         levels[CLIENT_KEY] = client
     levels[OTHER_KEY] = 0
+    _set_case(())
     inp = {"proc": "authorize2", "free_level": free, "client_key_level": client, "conn": conn_behaviour}
     spec = [{"address": TARGET, "levels": levels, "conn": conn_behaviour, "name": "dev"}]
 
@@ -312,8 +330,22 @@ def check_authorize(ctx, free: int, client: int | None, conn_behaviour: str = "a
 # ---------------------------------------------------------------------------
 # enumeration
 
-DEV_CODES = [a + p + c for a in "tab" for p in "P-" for c in "ARS"]
-SER_CODES = [s + a + f for s in "so" for a in "ta" for f in "-*"]
+def _replies(code: str) -> bool:
+    """Address procedures: a device sends something only if it is in programming mode (broadcast answer, and it moves to the
+    target) or sits at the target address and reacts to point-to-point frames. For the others the latency is immaterial."""
+    return code[1] == "P" or (code[0] == "t" and code[2] != "S")
+
+
+def with_latencies(codes, replies):
+    out = []
+    for c in codes:
+        out.extend([c + l for l in "cim"] if replies(c) else [c + "m"])
+    return out
+
+
+DEV_CODES = with_latencies([a + p + c for a in "tab" for p in "P-" for c in "ARS"], _replies)
+READ_CODES = with_latencies([a + p + c for a in "ta" for p in "P-" for c in "AS"], lambda c: c[1] == "P")
+SER_CODES = with_latencies([s + a + f for s in "so" for a in "ta" for f in "-*"], lambda c: c[0] == "s" or c[2] == "*")
 
 
 def populations(codes, max_n):
@@ -321,19 +353,23 @@ def populations(codes, max_n):
         yield from itertools.combinations_with_replacement(codes, n)
 
 
-def _write_shard(ctx, pops, latency="20ms") -> None:
+def _latclass(pop) -> str:
+    ls = {c[3] for c in pop if len(c) > 3 and (c[1] == "P" or c[0] in "ts" or c[2] == "*")}
+    return "latency:" + ("".join(sorted(ls)) or "-")
+
+
+def _write_shard(ctx, pops) -> None:
     n = nt = 0
-    _LAT[0] = latency
     for pop in pops:
         label = check_write(ctx, pop)
-        ctx.classes[label + ("" if latency == "20ms" else "@same-iteration")] += 1
+        ctx.classes[label] += 1
+        ctx.classes[_latclass(pop)] += 1
         n += 1
         if any(c[1] == "P" or c[0] == "t" for c in pop):
             nt += 1
-        if n % 61 == 1:
+        if n % 331 == 1:
             ctx.sample({"address_write": list(pop), "outcome": label})
-    _LAT[0] = "20ms"
-    ctx.bulk(n, nt, "address-write-populations" + ("" if latency == "20ms" else "@same-iteration"))
+    ctx.bulk(n, nt, "address-write-populations")
 
 
 def _read_shard(ctx, pops) -> None:
@@ -343,6 +379,8 @@ def _read_shard(ctx, pops) -> None:
             check_read(ctx, pop, rim)
             n += 1
             nt += 1 if any(c[1] == "P" for c in pop) else 0
+        if n % 200 == 2:
+            ctx.sample({"address_read": list(pop)})
     ctx.bulk(n, nt, "address-read-populations")
 
 
@@ -353,7 +391,7 @@ def _serial_shard(ctx, pops) -> None:
             check_serial(ctx, pop, write)
             n += 1
             nt += 1 if any(c[0] == "s" or c[2] == "*" for c in pop) else 0
-        if n % 40 == 2:
+        if n % 400 == 2:
             ctx.sample({"serial": list(pop)})
     ctx.bulk(n, nt, "serial-populations")
 
@@ -379,29 +417,33 @@ def _chunks(seq, k):
 
 
 def run(ctx) -> None:
+    # import the code under test before forking, so that the workers do not each import it again
+    import xknx.management.procedures.device  # noqa: F401
+    import xknx.management.procedures.network  # noqa: F401
+
+    import vk.simbus  # noqa: F401
+    import vk.xharness  # noqa: F401
+
+    procs = 4 if ctx.quick else 8  # cases cost < 1 ms; more workers only add fork/scheduling overhead on a shared box
     max_n = 3
     pops = list(populations(DEV_CODES, ctx.n(3, 4)))  # thorough: up to 4 devices for the address write
-    # interleave so that shards have similar cost
-    shards = [pops[i::32] for i in range(32)]
-    parallel(ctx, _write_shard, [(s, lat) for lat in LATENCIES for s in shards if s])
-    rpops = list(populations([a + p + c for a in "ta" for p in "P-" for c in "AS"], max_n))
-    parallel(ctx, _read_shard, [(rpops[i::8],) for i in range(8)])
+    k = ctx.n(32, 128)
+    parallel(ctx, _write_shard, [(pops[i::k],) for i in range(k) if pops[i::k]], procs=procs)  # interleaved: shards of similar cost
+    rpops = list(populations(READ_CODES, max_n))
+    parallel(ctx, _read_shard, [(rpops[i::16],) for i in range(16)], procs=procs)
     spops = list(populations(SER_CODES, max_n))
-    parallel(ctx, _serial_shard, [(spops[i::8],) for i in range(8)])
-    parallel(ctx, _auth_shard, [([f],) for f in range(16)])
+    parallel(ctx, _serial_shard, [(spops[i::16],) for i in range(16)], procs=procs)
+    parallel(ctx, _auth_shard, [([f],) for f in range(16)], procs=procs)
     ctx.exhaustive = True
     ctx.notes["max_devices_address_write"] = ctx.n(3, 4)
-    ctx.notes["populations"] = {"address_write": 2 * len(pops), "address_read": 2 * len(rpops), "serial": 2 * len(spops), "authorize2": 16 * 19}
+    ctx.notes["device_codes"] = {"address_write": len(DEV_CODES), "address_read": len(READ_CODES), "serial": len(SER_CODES)}
+    ctx.notes["populations"] = {"address_write": len(pops), "address_read": 2 * len(rpops), "serial": 2 * len(spops), "authorize2": 16 * 19}
 
 
 def replay(ctx, case) -> None:
     p = case.get("proc")
     if p == "address_write":
-        _LAT[0] = case.get("latency", "20ms")
-        try:
-            check_write(ctx, tuple(case["pop"]))
-        finally:
-            _LAT[0] = "20ms"
+        check_write(ctx, tuple(case["pop"]), case.get("latency", "20ms"))
     elif p == "address_read":
         check_read(ctx, tuple(case["pop"]), bool(case.get("raise_if_multiple")))
     elif p in ("serial_read", "serial_write"):
